@@ -235,4 +235,34 @@ def FT.level (t : FT) (d : Nat) : List FT :=
 /-- pre-order list of coordinates (what the driver prints) -/
 def FT.coords (t : FT) : List (Rat × Rat) := t.subtrees.map fun n => (n.x, n.y)
 
+/-! ## bare shapes (to state that the drawing has the shape of the input tree) -/
+
+inductive Sk where
+  | node (children : List Sk)
+  deriving Repr, Inhabited
+
+mutual
+def Sk.ofTree : Tree → Sk
+  | .node _ _ _ cs => .node (Sk.ofTrees cs)
+def Sk.ofTrees : List Tree → List Sk
+  | [] => []
+  | c :: cs => Sk.ofTree c :: Sk.ofTrees cs
+end
+
+mutual
+def PT.sk : PT → Sk
+  | .node _ _ _ cs => .node (PT.skL cs)
+def PT.skL : List PT → List Sk
+  | [] => []
+  | c :: cs => PT.sk c :: PT.skL cs
+end
+
+mutual
+def FT.sk : FT → Sk
+  | .node _ _ cs => .node (FT.skL cs)
+def FT.skL : List FT → List Sk
+  | [] => []
+  | c :: cs => FT.sk c :: FT.skL cs
+end
+
 end Plot
